@@ -47,58 +47,32 @@ theorem artifact_complete_written (prog : Pid → Params) (sched : Sched) (i : I
   | md x => rw [hk] at hl; simp [dest] at hl
   | reader => have := (hr hk).1; rw [hlk.1] at this; cases this
 
-/-- the full statement of the property: the content is the complete *payload* (for a mirror: the
-complete upstream file).  NOT asserted: the code as it is copies only what the extractor consumed,
-see `artifact_complete_goal_false`. -/
-def artifact_complete_goal : Prop :=
-  ∀ (prog : Pid → Params) (sched : Sched) (i : Ino),
-    (reach prog sched).names .art = some i →
-    ((reach prog sched).inodes i).closed = true ∧
-    ∃ p, ((prog p).kind = .package ∨ (prog p).kind = .mirror) ∧
-      ((reach prog sched).inodes i).chunks = (prog p).payload
-
-/-- proved under the added hypothesis `hdrain`: every mirror consumes its upstream file to the end -/
-theorem artifact_complete_partial (prog : Pid → Params)
-    (hdrain : ∀ p, (prog p).kind = .mirror → (prog p).payload.length ≤ (prog p).consumed)
-    (sched : Sched) (i : Ino) (h : (reach prog sched).names .art = some i) :
-    ((reach prog sched).inodes i).closed = true ∧
-    ∃ p, ((prog p).kind = .package ∨ (prog p).kind = .mirror) ∧
-      ((reach prog sched).inodes i).chunks = (prog p).payload := by
-  have h1 := artifact_complete_written prog sched i h
-  refine ⟨h1.1, _, h1.2.1, ?_⟩
-  rw [h1.2.2.1]
+/-- with the drain loop that `_downloadPackage` has in the current source (`mirrorDrains`, regenerated
+from the source on every run) a cache mirror hands the complete upstream file to `write` -/
+theorem written_is_payload (pr : Params) : written pr = pr.payload := by
   unfold written
-  split
-  · next hk => exact List.take_of_length_le (hdrain _ hk)
-  · rfl
+  split <;> simp [Consts.C09.mirrorDrains]
 
-/-- "exactly one": with pairwise different data the writer is unique -/
-theorem artifact_complete_unique (prog : Pid → Params) (sched : Sched) (i : Ino)
-    (hinj : ∀ p q, written (prog p) = written (prog q) → p = q)
+/-- **artifact_complete** (full statement): under every schedule, kill point and fault choice and for any
+number of processes, if the artifact name is bound then its inode is closed and its content is the
+complete payload of one package uploader or cache mirror (for a mirror: the complete upstream file) -/
+theorem artifact_complete (prog : Pid → Params) (sched : Sched) (i : Ino)
     (h : (reach prog sched).names .art = some i) :
-    ∃ p, ((reach prog sched).inodes i).chunks = written (prog p) ∧
-      ∀ q, ((reach prog sched).inodes i).chunks = written (prog q) → q = p := by
+    ((reach prog sched).inodes i).closed = true ∧
+    ∃ p, ((prog p).kind = .package ∨ (prog p).kind = .mirror) ∧
+      ((reach prog sched).inodes i).chunks = (prog p).payload ∧
+      ((reach prog sched).procs p).linked = true := by
   have h1 := artifact_complete_written prog sched i h
-  exact ⟨_, h1.2.2.1, fun q hq => hinj _ _ (hq.symm.trans h1.2.2.1)⟩
+  exact ⟨h1.1, _, h1.2.1, by rw [h1.2.2.1, written_is_payload], h1.2.2.2⟩
 
-/-- witness program: process 0 mirrors an upstream file of two chunks but its extractor stops after
-the first one (tar end-of-archive marker reached before the end of the gzip stream) -/
-def truncProg : Pid → Params := fun _ =>
-  { kind := .mirror, payload := [7, 8], nPack := 0, consumed := 1, fileMode := false }
-
-def truncSched : Sched :=
-  [(0, .run), (0, .run), (0, .run), (0, .run), (0, .run), (0, .run), (0, .run), (0, .run)]
-
-/-- the code as it is violates the full statement: the cache ends up with a proper prefix of the
-upstream file under the artifact name (reproduced on the implementation by the oracle,
-signature `cache-mirror-truncated-tail`) -/
-theorem artifact_complete_goal_false : ¬ artifact_complete_goal := by
-  intro h
-  have h1 := h truncProg truncSched 0 (by decide)
-  obtain ⟨_, p, _, hp⟩ := h1
-  have : ((reach truncProg truncSched).inodes 0).chunks = [7] := by decide
-  rw [this] at hp
-  simp [truncProg] at hp
+/-- "exactly one": with pairwise different payloads the writer is unique -/
+theorem artifact_complete_unique (prog : Pid → Params) (sched : Sched) (i : Ino)
+    (hinj : ∀ p q, (prog p).payload = (prog q).payload → p = q)
+    (h : (reach prog sched).names .art = some i) :
+    ∃ p, ((reach prog sched).inodes i).chunks = (prog p).payload ∧
+      ∀ q, ((reach prog sched).inodes i).chunks = (prog q).payload → q = p := by
+  obtain ⟨_, p, _, hp, _⟩ := artifact_complete prog sched i h
+  exact ⟨p, hp, fun q hq => hinj _ _ (hq.symm.trans hp)⟩
 
 /-! ## 2. a bound artifact is immutable -/
 
@@ -122,7 +96,7 @@ theorem reader_reads_artifact (prog : Pid → Params) (sched : Sched) (p : Pid) 
       (s.procs p).acc = ((s.inodes (s.procs p).rino).chunks).take pos) ∧
     ((s.procs p).pc = .done .read →
       s.names .art = some (s.procs p).rino ∧
-      (s.procs p).acc = written (prog (s.inodes (s.procs p).rino).owner)) := by
+      (s.procs p).acc = (prog (s.inodes (s.procs p).rino).owner).payload) := by
   intro s
   have inv : Inv prog s := reachable_inv prog sched
   have hr := inv.reader p
@@ -134,8 +108,7 @@ theorem reader_reads_artifact (prog : Pid → Params) (sched : Sched) (p : Pid) 
   · intro hpc
     rw [hpc] at hr
     refine ⟨hr.1, ?_⟩
-    rw [hr.2]
-    exact (artifact_complete_written prog sched _ hr.1).2.2.1
+    rw [hr.2, (artifact_complete_written prog sched _ hr.1).2.2.1, written_is_payload]
 
 /-! ## 3. a failed or killed upload leaves nothing under the artifact name -/
 
@@ -242,12 +215,15 @@ def raceProg : Pid → Params := fun p =>
   if p = 2 then { kind := .reader, payload := [], nPack := 0, consumed := 0, fileMode := false }
   else { kind := .package, payload := [10 * p + 1, 10 * p + 2], nPack := 1, consumed := 0, fileMode := p = 0 }
 
+/-- `n` operations of process `p` (operations of a finished process are no-ops) -/
+def ops (p : Pid) (n : Nat) : Sched := List.replicate n (p, .run)
+
 def raceSched : Sched :=
-  [(0, .run), (0, .run), (0, .run), (0, .run), (0, .run), (0, .run), (0, .run), (0, .run),  -- 0: up to chmod done
-   (1, .run), (1, .run), (1, .run), (1, .run), (1, .run), (1, .run), (1, .run), (1, .run), (1, .run),  -- 1 publishes
-   (2, .run), (2, .run),                                                                     -- reader opens, reads
-   (0, .run), (0, .run),                                                                     -- 0: link -> EEXIST, unlink
-   (2, .run), (2, .run)]                                                                     -- reader: 2nd chunk, EOF
+  ops 0 9 ++     -- 0: exists check .. chmod done, next is link()
+  ops 1 12 ++    -- 1 publishes
+  ops 2 2 ++     -- the reader opens the artifact and reads the first chunk
+  ops 0 2 ++     -- 0: link() -> EEXIST, unlink(tmp)
+  ops 2 3        -- the reader reads the rest up to end of file
 
 example : (reach raceProg raceSched).names .art = some 1 ∧
     ((reach raceProg raceSched).inodes 1).chunks = [11, 12] ∧
@@ -274,19 +250,21 @@ example : gaveUp ((reach raceProg [(0, .run), (0, .run), (0, .run), (0, .run), (
 def metaProg : Pid → Params := fun p =>
   { kind := .md .buildid, payload := [p], nPack := 0, consumed := 0, fileMode := false }
 
-def metaSched : Sched :=
-  [(0, .run), (0, .run), (0, .run), (0, .run), (0, .run), (0, .run),
-   (1, .run), (1, .run), (1, .run), (1, .run), (1, .run), (1, .run)]
+def metaSched : Sched := ops 0 8 ++ ops 1 8
 
-example : (reach metaProg (metaSched.take 6)).names (.md .buildid) = some 0 ∧
+example : (reach metaProg (metaSched.take 8)).names (.md .buildid) = some 0 ∧
     (reach metaProg metaSched).names (.md .buildid) = some 1 ∧
     ((reach metaProg metaSched).inodes 1).chunks = [1] ∧
     (reach metaProg metaSched).names (.tmp 0) = none ∧ (reach metaProg metaSched).names (.tmp 1) = none := by
   decide
 
-/-- the hypothesis of `artifact_complete_partial` holds e.g. for the race program (no mirrors) and for
-a draining mirror -/
-example : ∀ p, (raceProg p).kind = .mirror → (raceProg p).payload.length ≤ (raceProg p).consumed := by
-  intro p; unfold raceProg; split <;> simp
+/-- a cache mirror copies the complete upstream file although its extractor stops after one chunk -/
+def mirrorProg : Pid → Params := fun _ =>
+  { kind := .mirror, payload := [7, 8], nPack := 1, consumed := 1, fileMode := false }
+
+example : (reach mirrorProg (ops 0 14)).names .art = some 0 ∧
+    ((reach mirrorProg (ops 0 14)).inodes 0).chunks = [7, 8] ∧
+    ((reach mirrorProg (ops 0 14)).procs 0).pc = .done .ok := by
+  decide
 
 end C09
